@@ -160,7 +160,7 @@ func c22Shape(sdk *miscSDK, idx int, name string) (out string) {
 	if !ok {
 		return "bad-op"
 	}
-	ctx, cancel := context.WithTimeout(context.Background(), 10*time.Second)
+	ctx, cancel := context.WithTimeout(context.Background(), HxScale(30*time.Second))
 	defer cancel()
 	swamp := sdkname.New().Sanctuary("c22").Realm("shape").Swamp("s" + strconv.Itoa(idx))
 	defer func() { _ = sdk.H.Destroy(context.Background(), swamp) }()
@@ -172,6 +172,9 @@ func c22Shape(sdk *miscSDK, idx int, name string) (out string) {
 	}
 	if err != nil {
 		fmt.Fprintf(os.Stderr, "c22 shape %s: save: %v\n", name, err)
+		if miscIsTimeout(err) {
+			return "timeout"
+		}
 		return "err-save"
 	}
 	stage = "read"
@@ -182,6 +185,9 @@ func c22Shape(sdk *miscSDK, idx int, name string) (out string) {
 	}
 	if err != nil {
 		fmt.Fprintf(os.Stderr, "c22 shape %s: read: %v\n", name, err)
+		if miscIsTimeout(err) {
+			return "timeout"
+		}
 		return "err-read"
 	}
 	if c22Canon(reflect.ValueOf(saved)) == c22Canon(reflect.ValueOf(back)) {
